@@ -76,6 +76,24 @@ class C05(Check):
         Fs = max(Lsc, abs(epl) if math.isfinite(epl) else 0.0, float(ps.EPD(at, av)),
                  float(ps.t_obj) if math.isfinite(ps.t_obj) else 0.0)
 
+        # first-order levers from each near-parabolic surface k to every surface j >= k: |y_j|, |u_j| caused by a unit
+        # height error and by a unit slope error introduced at k
+        levers = {}
+        if near_parabola:
+            for k_, q in enumerate(spec['surfs']):
+                if q['type'] == 'standard' and q['R'] != GL.INF and abs(1 + q['k']) < 0.05:
+                    Y1, U1, Y2, U2 = np.zeros(K1), np.zeros(K1), np.zeros(K1), np.zeros(K1)
+                    Y1[k_], U2[k_] = 1.0, 1.0
+                    if k_ + 2 <= K1:
+                        tk = float(ps.t[k_])
+                        for (y0, u0, Ya, Ua) in ((1.0, 0.0, Y1, U1), (0.0, 1.0, Y2, U2)):
+                            ys, us = ps.trace(y0 + tk * u0, u0, first=k_ + 2)
+                            Ya[k_ + 1:] = np.abs(np.array(ys, dtype=float))
+                            Ua[k_ + 1:] = np.abs(np.array(us, dtype=float))
+                    for a_ in (Y1, U1, Y2, U2):
+                        a_[~np.isfinite(a_)] = 0.0
+                    levers[k_] = (Y1, U1, Y2, U2)
+
         def run(kind, ref_y, ref_u, scale_fn, trace_args):
             nonlocal nt
             dy, du, valid, cancel = [], [], [], []
@@ -89,16 +107,20 @@ class C05(Check):
                 s_ = scale_fn(e)
                 # size of the conic-root cancellation (finding C05-parabola-cancellation) for this ray: the root
                 # (-b - sqrt(b^2-4ac))/(2a) with a = c (L^2+M^2+(1+k)N^2) loses ~ 1e-15/|a| in the distance along the ray
-                terr = np.zeros(len(y))
+                # The displaced point (dy = |slope| terr, du = 2|c| dy) is carried to the later surfaces with the
+                # reference's own first-order propagation (levers[k] = |y|, |u| there per unit dy and unit du).
+                terr = np.zeros((2, len(y)))
                 if near_parabola:
-                    acc = 0.0
                     for k_, q in enumerate(spec['surfs']):
                         if q['type'] == 'standard' and q['R'] != GL.INF and abs(1 + q['k']) < 0.05:
                             Lp, Mp, Np = [float(np.ravel(getattr(sg.surfaces[k_], nm))[0]) for nm in ('L', 'M', 'N')]
                             a_dir = abs(Lp ** 2 + Mp ** 2 + (1 + q['k']) * Np ** 2) / abs(GL.fl(q['R']))
                             if a_dir > 0 and math.isfinite(a_dir):
-                                acc += 1e-15 / a_dir
-                        terr[k_:] = acc
+                                t_ = 1e-15 / a_dir
+                                ck = 2 * abs(1.0 / GL.fl(q['R']))
+                                Y1, U1, Y2, U2 = levers[k_]
+                                terr[0] += t_ * (Y1 + ck * Y2)
+                                terr[1] += t_ * (U1 + ck * U2)
                 cancel.append(terr)
                 with np.errstate(all='ignore'):
                     dy.append(y / s_ - ref_y)
@@ -126,8 +148,7 @@ class C05(Check):
                         out.region('C05-parabola-cancellation')
                         floor = floor + 1e-12 * max(Fs, Rmax) / EPS[i] ** 2
                         # a point displaced by terr along the ray: heights move by |slope| terr, slopes by |c| |slope| terr
-                        lever = 10 * (usc if name == 'y' else usc * max(1.0, Lsc / Rmin))
-                        floor = floor + cancel[i] * lever
+                        floor = floor + 10 * usc * cancel[i][0 if name == 'y' else 1]
                     bound = 4 * Kc * EPS[i] ** 2 + floor
                     bad = np.abs(d[i]) > bound
                     out.expect('%s_%s_quadratic' % (kind, name), not np.any(bad), eps=EPS[i],
